@@ -251,25 +251,34 @@ def resolve_histories(chk, exe, rng, reps):
             for f in range(nf):
                 A.lines.append('cal get_parameter_value %d %d %s' % (A.c, u, vlib.d2h(A.fvec[f])))
                 iA.append(len(A.lines) - 1)
-            k = rng.choice([0.1, 3.0, 10.0])
-            B = Sc(rng, typ, 1, 1, nf, form='m', slot_c=0, slot_n=1, fvec=[f * k for f in A.fvec]).begin(create=False)
+            # the second grid: another band or the same band, with the same, a smaller or a larger number of points
+            k = rng.choice([0.1, 1.0, 1.0, 3.0, 10.0])
+            nfB = rng.choice([nf, nf, max(1, nf - 1), 1, nf + 1])
+            if k == 1.0 and nfB == nf:
+                nfB = nf - 1
+            B = Sc(rng, typ, 1, 1, nfB, form='m', slot_c=0, slot_n=1, fvec=[1e9 * (1 + 0.25 * i) * k for i in range(nfB)]).begin(create=False)
             for code in (calsim.SHORT, calsim.OPEN, calsim.MATCH):
                 B.add_reflect(1, code)
-            gB = [g + complex(rng.uniform(-0.1, 0.1), rng.uniform(-0.1, 0.1)) for g in gA]
-            SB = [calsim.embed(1, [0], [[gB[f]]], B.others) for f in range(nf)]
+            gB = [gA[f % nf] + complex(rng.uniform(-0.1, 0.1), rng.uniform(-0.1, 0.1)) for f in range(nfB)]
+            SB = [calsim.embed(1, [0], [[gB[f]]], B.others) for f in range(nfB)]
             B.lines.append('cal add %d single_reflect %s %d %d' % (B.n, B.mtext(B.meas(SB)), u, 1))
             B.solve()
             lines = A.lines + B.lines
             iB = []
-            for f in range(nf):
+            for f in range(nfB):
                 lines.append('cal get_parameter_value %d %d %s' % (A.c, u, vlib.d2h(B.fvec[f])))
                 iB.append(len(lines) - 1)
-            lines.append('cal get_parameter_value %d %d %s' % (A.c, u, vlib.d2h(A.fvec[0] if k > 1 else A.fvec[-1])))   # outside the new grid
-            iout = len(lines) - 1
+            # frequencies of the first grid that lie outside the second (beyond the 1 % slack) must be refused now
+            outside = [f for f in A.fvec if f < B.fvec[0] * 0.98 or f > B.fvec[-1] * 1.02]
+            iouts = []
+            for f in outside:
+                lines.append('cal get_parameter_value %d %d %s' % (A.c, u, vlib.d2h(f)))
+                iouts.append(len(lines) - 1)
+            iout = iouts[0] if iouts else len(lines)
             lines += ['cal free 0', 'cal live']
             out, rc, err = vlib.run_lines(exe, lines, timeout=300)
             chk.evaluations += 1
-            tag = 're-solve %s nf=%d grid x%g' % (typ, nf, k)
+            tag = 're-solve %s nf=%d then nf=%d grid x%g' % (typ, nf, nfB, k)
             if rc != 0 or len(out) != len(lines):
                 chk.violation('sanitizer-resolve', '%s: crashed / sanitizer report:\n%s' % (tag, err[-1200:]), lines[:len(out) + 1])
                 return
@@ -283,14 +292,15 @@ def resolve_histories(chk, exe, rng, reps):
                     if abs(v - truth[f]) > 1e-4:
                         chk.violation('resolve-value', '%s: value of the unknown after the %s solve at frequency %d is %r, solved truth %r' % (tag, which, f, v, truth[f]), lines[:i + 1])
                         return
-            if out[iout].startswith('ok'):
-                chk.violation('resolve-range', '%s: a frequency of the first grid outside the second is still answered after the second solve: %s' % (tag, out[iout][:80]), lines[:iout + 1])
+            stale = [i for i in iouts if out[i].startswith('ok')]
+            if stale:
+                chk.violation('resolve-range', '%s: a frequency of the first grid outside the second is still answered after the second solve: %s' % (tag, out[stale[0]][:80]), lines[:stale[0] + 1])
                 return
             if out[-1] != 'ok live=0':
                 chk.violation('resolve-leak', '%s: allocations remain: %s' % (tag, out[-1]), lines)
                 return
             chk.count('resolve_ok')
-            chk.distinct.add(('resolve', typ, nf, k))
+            chk.distinct.add(('resolve', typ, nf, nfB, k))
 
 
 def tolerances_and_limits(chk, exe, rng, broken, reps):
